@@ -344,6 +344,32 @@ fn judge(rep: &Report, m: &Mutant, core: Option<String>, cli: bool) {
     }
 }
 
+/// a constant may also be written as OFFSET of a data label: in an 8-bit position an offset above 255 is out of range
+fn offset_constants(rep: &Report) {
+    let byte_positions = ["mov ch, offset lab", "mov byte [bx], OFFSET lab", "add dl, offset lab", "cmp byte bv0, offset lab", "and al, offset lab", "shl ax, offset lab", "rcr byte [si], OFFSET lab", "db offset lab", "db [offset lab, 2]", "int offset lab"];
+    for n in [254usize, 255, 256, 257, 300, 511, 512, 65535] {
+        for (k, pos) in byte_positions.iter().enumerate() {
+            let data_pos = pos.starts_with("db");
+            let text = if data_pos {
+                format!("bv0: db 1\npad: db [0,{}]\nlab: db 7\n{}\nstart:\nmov ax,1\n", n - 1, pos)
+            } else {
+                format!("bv0: db 1\npad: db [0,{}]\nlab: db 7\nstart:\nmov ax,1\n{}\nmov bx,2\n", n - 1, pos)
+            };
+            let class = format!("constant:offset-in-byte-position:{}", pos.split(|c| c == ' ' || c == ',').next().unwrap_or("?"));
+            if n <= 255 {
+                // in range (int needs 3/16/33): counted only
+                rep.count("in-range OFFSET constants in byte positions tried", 1);
+                if accepted(&text).is_err() && !pos.starts_with("int") {
+                    rep.count("in-range OFFSET constants refused (not judged here)", 1);
+                }
+                continue;
+            }
+            let m = Mutant { class, text };
+            judge(rep, &m, Some(format!("off{}k{}", n, k)), k % 2 == 0);
+        }
+    }
+}
+
 /// boundary values themselves must stay usable: counted, not judged (acceptance of documented shapes is C10's subject)
 fn boundaries(rep: &Report) {
     let mut refused = 0u64;
@@ -372,6 +398,7 @@ fn boundaries(rep: &Report) {
 
 pub fn run(rep: &Report) {
     boundaries(rep);
+    offset_constants(rep);
     let t = rep.thorough();
     let nparents = if t { 4000 } else { 40 };
     let ncore = 12;
@@ -400,4 +427,4 @@ pub fn run(rep: &Report) {
     rep.floor("mutants run through the binary", rep.counter("mutants run through the binary"), 300);
 }
 
-pub const RULE: &str = "valid parents (random well-formed programs of all instruction classes and structured programs; each is first checked to be accepted) receive one defect each: a defective instruction line inserted at a random position of the code (top level or inside a procedure) from 46 templates - jump to an undefined / data label (14 jump spellings), call of a code label / data label / unknown name, byte/word data operand or OFFSET naming a code label or an unknown name, mixed operand widths (7 shapes x 10 mnemonics), two memory operands (5 shapes), unsupported instructions (in/out/lds/les/wait/esc/lock/into/iret), interrupt numbers other than 3/10h/21h in three radices, unsupported directives, duplicate code labels, a code label redefining a data label; duplicate data labels and procedures; every constant position (imm8/imm16 to register, memory, label; logic immediates; displacements of all addressing shapes; direct addresses; shift counts; SET; DB/DW values, fill values and array sizes) pushed one past the upper end, one past the lower end, and far outside in decimal/hex/binary; 'start' removed, spelled 'Start', or made a data label; at AST level the definition of a referenced label dropped and a jump retargeted to a data label / undefined name. Oracle: in process Preprocessor::parse is Err with a non-empty message or the replicated driver checks refuse; through the binary (every 8th mutant) there are zero hook records, non-empty output and a clean exit. Distinct = mutation class (incl. position).";
+pub const RULE: &str = "valid parents (random well-formed programs of all instruction classes and structured programs; each is first checked to be accepted) receive one defect each: a defective instruction line inserted at a random position of the code (top level or inside a procedure) from 46 templates - jump to an undefined / data label (14 jump spellings), call of a code label / data label / unknown name, byte/word data operand or OFFSET naming a code label or an unknown name, mixed operand widths (7 shapes x 10 mnemonics), two memory operands (5 shapes), unsupported instructions (in/out/lds/les/wait/esc/lock/into/iret), interrupt numbers other than 3/10h/21h in three radices, unsupported directives, duplicate code labels, a code label redefining a data label; duplicate data labels and procedures; every constant position (imm8/imm16 to register, memory, label; logic immediates; displacements of all addressing shapes; direct addresses; shift counts; SET; DB/DW values, fill values and array sizes) pushed one past the upper end, one past the lower end, and far outside in decimal/hex/binary; constants written as OFFSET of a data label placed at offsets 256..65535 in ten 8-bit positions; 'start' removed, spelled 'Start', or made a data label; at AST level the definition of a referenced label dropped and a jump retargeted to a data label / undefined name. Oracle: in process Preprocessor::parse is Err with a non-empty message or the replicated driver checks refuse; through the binary (every 8th mutant) there are zero hook records, non-empty output and a clean exit. Distinct = mutation class (incl. position).";
